@@ -216,6 +216,24 @@ def dotted(node):
     return None
 
 
+def clone(node):
+    """Structural copy of an AST subtree (does not follow the _parent back links)."""
+    if isinstance(node, list):
+        return [clone(x) for x in node]
+    if not isinstance(node, ast.AST):
+        return node
+    new = node.__class__()
+    for f in node._fields:
+        if hasattr(node, f):
+            setattr(new, f, clone(getattr(node, f)))
+    for a in ("lineno", "col_offset", "end_lineno", "end_col_offset"):
+        if hasattr(node, a):
+            setattr(new, a, getattr(node, a))
+    for child in ast.iter_child_nodes(new):
+        child._parent = new
+    return new
+
+
 def norm(node):
     """Normalised source text of a node (whitespace/quote independent)."""
     if isinstance(node, str):
